@@ -185,4 +185,9 @@ example : handleContents (bufRun tight (initBuf 0) [(.assignBuf [] true, 0), (.b
     = [[], [2], [1]] := by decide
 end NonVacuity
 
+/-- The tree as it is now: since `fix: hand out buffered byte slices with their own capacity` the default
+configuration — the one the driver replays real histories with — is the repaired one, so every theorem above is
+a statement about the model of the current code. -/
+theorem current_is_tight : ({} : BufCfg) = { openCap := false } := rfl
+
 end Inspector.C07
